@@ -257,7 +257,7 @@ CORPUS = [
 
 
 def search(ck: Ck) -> None:
-    n = ck.budget(1500, 30000)
+    n = 30000 if ck.thorough else ck.budget(1500, 10000)
     found: dict[str, tuple] = {}
     for i in range(n):
         if i < len(CORPUS):
@@ -421,7 +421,7 @@ def run_case(ops) -> tuple[list, list]:
 
 
 def corr(ck: Ck, escalate: bool = False) -> None:
-    n = 2500 if escalate else ck.budget(240, 2500)
+    n = 2500 if ck.thorough else (1200 if (escalate or ck.tie_broken) else 240)
     cases = []
     seqs: list = list(CORPUS)
     if ck.thorough or ck.tie_broken or escalate:
